@@ -233,14 +233,53 @@ pub fn lower_all(session: &zydeco_session::CompilerSession, analysis: &zydeco_se
 }
 
 /// zyconf export-ir CASES OUT_NDJSON SUMMARY LIMIT : ZyCore cases -> lowered IR exports + interpreter observation
+/// A program of spec/ZyProducts.tla as source text (appended to core::PRELUDE).
+fn render_product(c: &J) -> String {
+    let n = c["n"].as_u64().unwrap() as usize;
+    let k = c["k"].as_u64().unwrap() as usize;
+    let tuple = (1..=n).map(|i| i.to_string()).collect::<Vec<_>>().join(", ");
+    let rest_is_int = n - k == 1;
+    let then = c["then"].as_str().unwrap();
+    let mut names: Vec<String> = (1..=k).map(|i| format!("x{i}")).collect();
+    let pat = format!("({}, rest)", names.join(", "));
+    let mut pre = String::new();
+    if then == "unpackrest" {
+        let ys: Vec<String> = (k + 1..=n).map(|i| format!("y{i}")).collect();
+        pre.push_str(&format!("let ({}) = rest in\n", ys.join(", ")));
+        names.extend(ys);
+    } else if rest_is_int {
+        names.push("rest".into());
+    }
+    // the sum of the named components, then exit with it
+    let mut chain = String::new();
+    let mut acc = names[0].clone();
+    for (j, nm) in names.iter().enumerate().skip(1) {
+        chain.push_str(&format!("do s{j} <- ! (int64/add) {acc} {nm};\n"));
+        acc = format!("s{j}");
+    }
+    let finish = format!("{chain}! (process/exit) {acc}");
+    let after = match then {
+        | "exit" | "unpackrest" => format!("{pre}{finish}"),
+        | "match" => format!("match b\n| +T(_) => {finish}\n| +F(i) => ! (process/exit) 99\nend"),
+        | _ => format!("let u = ({}, rest) in\nlet c : B = +F(x1) in\n{chain}match c\n| +T(_) => ! (process/exit) 98\n| +F(i) => ! (process/exit) {acc}\nend", (1..=k).map(|i| format!("x{i}")).collect::<Vec<_>>().join(", ")),
+    };
+    let body = format!("let {pat} = t in\n{after}");
+    let placed = match c["where"].as_str().unwrap() {
+        | "entry" => body,
+        | "afterdo" => format!("do z <- ret 0;\n{body}"),
+        | _ => format!("! {{ {body} }}"),
+    };
+    format!("let b : B = +T() in\nlet t = ({tuple}) in\n{placed}\n")
+}
+
 pub fn export_ir(cases_path: &str, out_path: &str, summary_path: &str, limit: usize) {
-    let mut cases: Vec<J> = read_ndjson(Path::new(cases_path)).into_iter().filter(|c| c["res"]["verdict"] == "accept").collect();
+    let mut cases: Vec<J> = read_ndjson(Path::new(cases_path)).into_iter().filter(|c| c["res"]["verdict"] == "accept" || c.get("n").is_some()).collect();
     // seeded subsample that keeps the largest programs (they exercise most formers)
     let seed = seed_from_env();
     if limit > 0 && cases.len() > limit {
         let mut rng = Rng(seed);
         let mut keep: Vec<J> = Vec::new();
-        cases.sort_by_key(|c| std::cmp::Reverse(c["prog"].as_array().unwrap().len()));
+        cases.sort_by_key(|c| std::cmp::Reverse(c["prog"].as_array().map(|a| a.len()).unwrap_or(1000)));
         let head = limit / 2;
         keep.extend(cases.drain(..head));
         while keep.len() < limit && !cases.is_empty() {
@@ -254,17 +293,30 @@ pub fn export_ir(cases_path: &str, out_path: &str, summary_path: &str, limit: us
         threads(),
         |tid| Analyzer::new(&format!("ir{tid}")),
         |an, idx, case| {
-            let toks = case["prog"].as_array().unwrap();
-            let mut i = 0;
-            let root = parse(toks, &mut i);
-            let mut r = Renderer { ann: Ann::Full, naming: Naming::Unique, rng: Rng(idx as u64) };
-            let src = r.program(&root);
+            let product = case.get("n").is_some();
+            let src = if product {
+                format!("{}{}", crate::core::PRELUDE, render_product(case))
+            } else {
+                let toks = case["prog"].as_array().unwrap();
+                let mut i = 0;
+                let root = parse(toks, &mut i);
+                let mut r = Renderer { ann: Ann::Full, naming: Naming::Unique, rng: Rng(idx as u64) };
+                r.program(&root)
+            };
             let (v, analysis) = an.analyze("case.zy", &src);
-            let (Verdict::Accepted, Some(a)) = (&v, &analysis) else { return (vec![], None, false) };
-            let fuel = case["steps"].as_u64().unwrap_or(0) as usize;
+            let (Verdict::Accepted, Some(a)) = (&v, &analysis) else {
+                if product {
+                    return (vec![json!({"property": "C18", "kind": "product-program-not-accepted", "detail": format!("{} {}", case, v.short()), "source": src})], None, false);
+                }
+                return (vec![], None, false);
+            };
+            let fuel = if product { 400 } else { case["steps"].as_u64().unwrap_or(0) as usize };
             let run = run_bounded(&an.session, a, b"", &[], 40 * (fuel + 50));
-            let what = json!({"prog": case["prog"]});
-            let low = lower_all(&an.session, a, &what, &src);
+            let what = if product { json!({"product": case}) } else { json!({"prog": case["prog"]}) };
+            let mut low = lower_all(&an.session, a, &what, &src);
+            if product && run.end != (RunEnd::Exit { code: case["exit"].as_i64().unwrap() as i32 }) {
+                low.findings.push(json!({"property": "C19", "kind": "product-program-interpreter-differs-from-arithmetic", "detail": format!("{}: expected exit {}, interpreter {:?}", case, case["exit"], run.end), "source": src}));
+            }
             let obs = match &run.end {
                 | RunEnd::Exit { code } => json!({"end":"exit","code":code,"out":run.stdout}),
                 | RunEnd::Ret => json!({"end":"ret","code":0,"out":run.stdout}),
